@@ -288,6 +288,31 @@ func init() {
 		p := term.Mul(term.Zext(x, 64), term.Zext(y, 64))
 		return c.ret(TupleV{term.Extract(p, 127, 64), term.Extract(p, 63, 0)})
 	}
+	lenN := func(w int) StubFn {
+		return func(ex *Exec, c *CallCtx) []*callResult {
+			x := c.Args[0].(*term.Term)
+			if x.IsConst() {
+				return c.ret(term.Const(64, uint64(bits.Len64(x.Val))))
+			}
+			// number of bits needed: the largest k with bit k-1 set
+			r := term.Const(64, 0)
+			for k := 1; k <= w; k++ {
+				r = term.Ite(term.Uge(x, term.Const(w, uint64(1)<<uint(k-1))), term.Const(64, uint64(k)), r)
+			}
+			return c.ret(r)
+		}
+	}
+	Stubs["math/bits.Len64"] = lenN(64)
+	Stubs["math/bits.Len32"] = lenN(32)
+	Stubs["math/bits.Len"] = lenN(64)
+	Stubs["math/bits.TrailingZeros64"] = func(ex *Exec, c *CallCtx) []*callResult {
+		x := c.Args[0].(*term.Term)
+		r := term.Const(64, 64)
+		for k := 63; k >= 0; k-- {
+			r = term.Ite(term.Ne(term.Extract(x, k, k), term.Const(1, 0)), term.Const(64, uint64(k)), r)
+		}
+		return c.ret(r)
+	}
 	Stubs["math/bits.Add64"] = func(ex *Exec, c *CallCtx) []*callResult {
 		x, y, ci := c.Args[0].(*term.Term), c.Args[1].(*term.Term), c.Args[2].(*term.Term)
 		s := term.Add(term.Add(term.Zext(x, 1), term.Zext(y, 1)), term.Zext(ci, 1))
